@@ -83,7 +83,7 @@
 //! simple pass-through operations with minimal overhead.
 
 use anyhow::{Context, Result};
-use std::io::{BufRead, BufReader, BufWriter, Read, Result as IoResult, Write};
+use std::io::{BufRead, BufReader, BufWriter, Cursor, ErrorKind, Read, Result as IoResult, Write};
 use std::path::Path;
 use std::sync::{Arc, RwLock};
 
@@ -240,6 +240,32 @@ fn detect_from_magic<R: BufRead>(reader: &mut R) -> Option<Arc<dyn CompressionCo
     None
 }
 
+/// Length of the longest magic byte signature among the registered codecs.
+fn longest_magic() -> usize {
+    get_registry()
+        .iter()
+        .filter_map(|codec| codec.magic_bytes().map(<[u8]>::len))
+        .max()
+        .unwrap_or(0)
+}
+
+/// Read up to `want` leading bytes, looping over short reads; stops early at the end of the
+/// stream or at the first error (which the caller's next read will see again).
+fn read_head<R: Read>(reader: &mut R, want: usize) -> Vec<u8> {
+    let mut head = vec![0u8; want];
+    let mut len = 0;
+    while len < want {
+        match reader.read(&mut head[len..]) {
+            Ok(0) => break,
+            Ok(n) => len += n,
+            Err(e) if e.kind() == ErrorKind::Interrupted => {}
+            Err(_) => break,
+        }
+    }
+    head.truncate(len);
+    head
+}
+
 /// Automatically detect and wrap a reader with decompression if needed.
 ///
 /// Detection strategy:
@@ -275,8 +301,12 @@ pub fn auto_detect_reader<R: Read + 'static>(
             .with_context(|| format!("wrap reader with {} codec", codec.name()));
     }
 
-    // Fall back to magic byte detection
-    let mut buf_reader = BufReader::new(reader);
+    // Fall back to magic byte detection. A single `read` may return fewer bytes than a
+    // signature (pipes, sockets, chained readers), so collect enough leading bytes for the
+    // longest registered signature first and put them back in front of the stream.
+    let mut reader = reader;
+    let head = read_head(&mut reader, longest_magic());
+    let mut buf_reader = BufReader::new(Cursor::new(head).chain(reader));
     if let Some(codec) = detect_from_magic(&mut buf_reader) {
         return codec
             .wrap_reader_dyn(Box::new(buf_reader))
